@@ -311,6 +311,24 @@ func c22Assemble(t *testing.T, src string, version uint64) []byte {
 
 // ---------------------------------------------------------------- generator
 
+// c22R draws an integer uniformly from [lo, hi]. rapid.IntRange is deliberately biased towards small values, which
+// would distort every weighted choice and percentage below; 24 fair coin flips give an (almost exactly) uniform draw
+// that still shrinks towards lo.
+func c22R(t *rapid.T, label string, lo, hi int) int {
+	if hi <= lo {
+		return lo
+	}
+	bits := rapid.SliceOfN(rapid.Bool(), 24, 24).Draw(t, label)
+	v := 0
+	for _, b := range bits {
+		v <<= 1
+		if b {
+			v |= 1
+		}
+	}
+	return lo + v%(hi-lo+1)
+}
+
 type c22Op struct {
 	K     string // create optin xfer claw freeze close config destroy
 	S     int    // sender (for App ops: the outer caller; the asset sender is the app account)
@@ -384,14 +402,14 @@ func (w *c22World) idxOf(a basics.Address) int {
 
 // pick draws an actor index; with probability pct/100 it returns one of prefer (if any)
 func (w *c22World) pick(t *rapid.T, label string, prefer []int, pct int, senders bool) int {
-	if len(prefer) > 0 && rapid.IntRange(0, 99).Draw(t, label+"Pref") < pct {
-		return prefer[rapid.IntRange(0, len(prefer)-1).Draw(t, label+"P")]
+	if len(prefer) > 0 && c22R(t, label+"Pref", 0, 99) < pct {
+		return prefer[c22R(t, label+"P", 0, len(prefer)-1)]
 	}
 	hi := w.n + 1 // incl. app and stranger
 	if senders {
 		hi = w.n - 1 // funded genesis actors only
 	}
-	return rapid.IntRange(0, hi).Draw(t, label)
+	return c22R(t, label, 0, hi)
 }
 
 func (w *c22World) holders(a *c22Asset, positive, nonCreator bool) []int {
@@ -414,7 +432,7 @@ func c22One(i int) []int {
 }
 
 func c22DrawTotal(t *rapid.T) uint64 {
-	switch rapid.IntRange(0, 9).Draw(t, "totKind") {
+	switch c22R(t, "totKind", 0, 9) {
 	case 0:
 		return 0
 	case 1:
@@ -422,18 +440,18 @@ func c22DrawTotal(t *rapid.T) uint64 {
 	case 2:
 		return math.MaxUint64
 	case 3:
-		return math.MaxUint64 - uint64(rapid.IntRange(0, 3).Draw(t, "totNear"))
+		return math.MaxUint64 - uint64(c22R(t, "totNear", 0, 3))
 	case 4:
 		return 1 << 63
 	case 5, 6:
-		return uint64(rapid.IntRange(2, 20).Draw(t, "totSmall"))
+		return uint64(c22R(t, "totSmall", 2, 20))
 	default:
 		return rapid.Uint64Range(2, 1_000_000).Draw(t, "tot")
 	}
 }
 
 func c22DrawAmount(t *rapid.T, bal, total uint64) uint64 {
-	switch rapid.IntRange(0, 13).Draw(t, "amtKind") {
+	switch c22R(t, "amtKind", 0, 13) {
 	case 0:
 		return 0
 	case 1:
@@ -454,7 +472,7 @@ func c22DrawAmount(t *rapid.T, bal, total uint64) uint64 {
 		return total
 	default:
 		if bal == 0 {
-			return uint64(rapid.IntRange(0, 2).Draw(t, "amtZ"))
+			return uint64(c22R(t, "amtZ", 0, 2))
 		}
 		return rapid.Uint64Range(0, bal).Draw(t, "amt")
 	}
@@ -462,17 +480,31 @@ func c22DrawAmount(t *rapid.T, bal, total uint64) uint64 {
 
 func (w *c22World) drawOp(t *rapid.T, forceCreate bool) c22Op {
 	m := w.m
-	real := 0
+	nReal := 0
 	for _, a := range m.assets {
 		if !a.Phantom {
-			real++
+			nReal++
 		}
 	}
-	if forceCreate || real == 0 {
+	nAlive := 0
+	for _, a := range m.assets {
+		if a.Alive {
+			nAlive++
+		}
+	}
+	if forceCreate || nReal == 0 || (nAlive == 0 && w.created < w.maxAsset+2) {
 		return w.drawCreate(t)
 	}
-	ai := rapid.IntRange(1, len(m.assets)-1).Draw(t, "asset")
-	if rapid.IntRange(0, 39).Draw(t, "phantom") == 0 {
+	ai := c22R(t, "asset", 1, len(m.assets)-1)
+	if !m.assets[ai].Alive && c22R(t, "keepDead", 0, 9) < 7 {
+		for j := 1; j < len(m.assets); j++ { // mostly work on assets that still exist
+			if m.assets[j].Alive {
+				ai = j
+				break
+			}
+		}
+	}
+	if c22R(t, "phantom", 0, 39) == 0 {
 		ai = 0 // an asset id that never existed
 	}
 	a := m.assets[ai]
@@ -490,32 +522,42 @@ func (w *c22World) drawOp(t *rapid.T, forceCreate bool) c22Op {
 		k string
 		w int
 	}
-	wOptin, wXfer, wClaw, wFreeze, wClose, wConfig, wDestroy := 4, 26, 3, 3, 7, 4, 3
+	wOptin, wXfer, wClaw, wFreeze, wClose, wConfig, wDestroy := 4, 26, 3, 3, 7, 3, 3
+	outsiders := 0
+	for i := 0; i <= w.n; i++ {
+		if _, ok := a.H[w.addr(i)]; !ok {
+			outsiders++
+		}
+	}
 	switch {
+	case outsiders == 0:
+		wOptin = 1
 	case len(nonCreators) < 2:
-		wOptin = 40
-	case len(nonCreators) < 4:
-		wOptin = 10
+		wOptin = 30
+	case len(nonCreators) < 3:
+		wOptin = 8
 	}
 	if cbOK {
-		wClaw = 12
+		wClaw = 10
 		if !w.clawMoved {
-			wClaw = 24
+			wClaw = 40
 		}
 	}
 	if fzOK {
 		wFreeze = 8
-		if len(frozenHolders) == 0 {
-			wFreeze = 22
+		if !w.frozeSeen {
+			wFreeze = 45
 		}
 	}
 	if len(frozenHolders) > 0 && !w.frozenXfer {
-		wXfer = 40
+		wXfer = 50
 	}
 	if mgOK {
-		wDestroy = 5
-		if !w.destroyTried && w.progress > 50 {
-			wDestroy = 25
+		wDestroy = 4
+		if ch, ok := a.H[a.Creator]; ok && ch.Amt == a.P.Total && w.progress < 60 {
+			wDestroy = 1 // a destroy would succeed: keep the asset around for most of the history
+		} else if !w.destroyTried && w.progress > 40 {
+			wDestroy = 30
 		}
 	}
 	if !a.Alive {
@@ -529,7 +571,7 @@ func (w *c22World) drawOp(t *rapid.T, forceCreate bool) c22Op {
 	for _, x := range ws {
 		tot += x.w
 	}
-	r := rapid.IntRange(0, tot-1).Draw(t, "opKind")
+	r := c22R(t, "opKind", 0, tot-1)
 	kind := ""
 	for _, x := range ws {
 		if r < x.w {
@@ -542,7 +584,7 @@ func (w *c22World) drawOp(t *rapid.T, forceCreate bool) c22Op {
 		return w.drawCreate(t)
 	}
 	op := c22Op{K: kind, As: ai}
-	viaApp := func() bool { return rapid.IntRange(0, 99).Draw(t, "viaApp") < 15 }
+	viaApp := func() bool { return c22R(t, "viaApp", 0, 99) < 15 }
 	holdersPos := w.holders(a, true, false)
 	holdersAny := w.holders(a, false, false)
 	balOf := func(i int) uint64 {
@@ -560,7 +602,7 @@ func (w *c22World) drawOp(t *rapid.T, forceCreate bool) c22Op {
 			}
 		}
 		_, appIn := a.H[w.addr(w.appIdx())]
-		if (!appIn && rapid.IntRange(0, 99).Draw(t, "appOptin") < 25) || (appIn && viaApp()) {
+		if (!appIn && c22R(t, "appOptin", 0, 99) < 25) || (appIn && viaApp()) {
 			op.App = true
 			op.S = w.pick(t, "caller", nil, 0, true)
 		} else {
@@ -584,11 +626,15 @@ func (w *c22World) drawOp(t *rapid.T, forceCreate bool) c22Op {
 			}
 			op.X = w.pick(t, "rcv", holdersAny, 65, false)
 			if len(frozenHolders) > 0 && !op.App {
-				switch rapid.IntRange(0, 9).Draw(t, "steerFrozen") {
+				steer := c22R(t, "steerFrozen", 0, 9)
+				if !w.frozenXfer && steer >= 5 {
+					steer -= 5
+				}
+				switch steer {
 				case 0, 1, 2:
-					op.X = frozenHolders[rapid.IntRange(0, len(frozenHolders)-1).Draw(t, "frozenRcv")]
+					op.X = frozenHolders[c22R(t, "frozenRcv", 0, len(frozenHolders)-1)]
 				case 3, 4:
-					if f := frozenHolders[rapid.IntRange(0, len(frozenHolders)-1).Draw(t, "frozenSnd")]; f < w.n {
+					if f := frozenHolders[c22R(t, "frozenSnd", 0, len(frozenHolders)-1)]; f < w.n {
 						op.S = f
 					}
 				}
@@ -615,8 +661,8 @@ func (w *c22World) drawOp(t *rapid.T, forceCreate bool) c22Op {
 		}
 		op.Y = w.pick(t, "victim", holdersPos, 75, false)
 		op.X = w.pick(t, "rcv", holdersAny, 70, false)
-		if len(frozenHolders) > 0 && rapid.IntRange(0, 9).Draw(t, "clawFrozen") < 4 {
-			f := frozenHolders[rapid.IntRange(0, len(frozenHolders)-1).Draw(t, "clawF")]
+		if len(frozenHolders) > 0 && c22R(t, "clawFrozen", 0, 9) < 4 {
+			f := frozenHolders[c22R(t, "clawF", 0, len(frozenHolders)-1)]
 			if rapid.Bool().Draw(t, "clawFrozenVictim") {
 				op.Y = f
 			} else {
@@ -624,6 +670,9 @@ func (w *c22World) drawOp(t *rapid.T, forceCreate bool) c22Op {
 			}
 		}
 		op.Amt = c22DrawAmount(t, balOf(op.Y), a.P.Total)
+		if b := balOf(op.Y); !w.clawMoved && b > 0 && c22R(t, "clawValid", 0, 9) < 7 {
+			op.Amt = rapid.Uint64Range(1, b).Draw(t, "clawAmt")
+		}
 	case "freeze":
 		fz := w.idxOf(a.P.Freeze)
 		if a.P.Freeze.IsZero() || fz >= w.n {
@@ -631,7 +680,7 @@ func (w *c22World) drawOp(t *rapid.T, forceCreate bool) c22Op {
 		}
 		op.S = w.pick(t, "snd", c22One(fz), 88, true)
 		op.X = w.pick(t, "target", holdersAny, 85, false)
-		op.B = rapid.IntRange(0, 9).Draw(t, "frz") < 7
+		op.B = c22R(t, "frz", 0, 9) < 7 || !w.frozeSeen
 	case "close":
 		s := w.pick(t, "snd", nonCreators, 70, false)
 		if s == w.appIdx() {
@@ -643,7 +692,7 @@ func (w *c22World) drawOp(t *rapid.T, forceCreate bool) c22Op {
 			op.S = s
 		}
 		cr := w.idxOf(a.Creator)
-		switch rapid.IntRange(0, 9).Draw(t, "closeToKind") {
+		switch c22R(t, "closeToKind", 0, 9) {
 		case 0, 1, 2, 3:
 			op.Y = cr
 		case 4, 5, 6, 7:
@@ -655,7 +704,7 @@ func (w *c22World) drawOp(t *rapid.T, forceCreate bool) c22Op {
 		if op.App {
 			src = w.appIdx()
 		}
-		if rapid.IntRange(0, 9).Draw(t, "closeAmt0") < 7 {
+		if c22R(t, "closeAmt0", 0, 9) < 7 {
 			op.Amt = 0
 			op.X = op.Y
 		} else {
@@ -670,16 +719,16 @@ func (w *c22World) drawOp(t *rapid.T, forceCreate bool) c22Op {
 		op.S = w.pick(t, "snd", c22One(mg), 88, true)
 		cur := [4]basics.Address{a.P.Manager, a.P.Reserve, a.P.Freeze, a.P.Clawback}
 		for i := range op.Addrs {
-			switch rapid.IntRange(0, 9).Draw(t, "cfgField") {
+			switch c22R(t, "cfgField", 0, 9) {
 			case 0, 1, 2, 3, 4:
 				op.Addrs[i] = w.idxOf(cur[i])
 				if cur[i].IsZero() {
 					op.Addrs[i] = -1
 				}
-			case 5, 6:
+			case 5:
 				op.Addrs[i] = -1
 			default:
-				op.Addrs[i] = rapid.IntRange(0, w.n).Draw(t, "cfgAddr")
+				op.Addrs[i] = c22R(t, "cfgAddr", 0, w.n)
 			}
 		}
 	case "destroy":
@@ -696,14 +745,17 @@ func (w *c22World) drawCreate(t *rapid.T) c22Op {
 	op := c22Op{K: "create"}
 	op.S = w.pick(t, "creator", nil, 0, true)
 	op.Amt = c22DrawTotal(t)
-	op.B = rapid.IntRange(0, 9).Draw(t, "defaultFrozen") < 3
-	op.Dec = uint32(rapid.IntRange(0, 19).Draw(t, "decimals"))
+	op.B = c22R(t, "defaultFrozen", 0, 9) < 3
+	op.Dec = uint32(c22R(t, "decimals", 0, 19))
 	for i := range op.Addrs {
 		zeroPct := 25
 		if i == 0 || i >= 2 { // manager, freeze and clawback mostly present so the rules can be exercised
-			zeroPct = 8
+			zeroPct = 12
+			if w.created == 0 {
+				zeroPct = 4
+			}
 		}
-		r := rapid.IntRange(0, 99).Draw(t, "roleKind")
+		r := c22R(t, "roleKind", 0, 99)
 		switch {
 		case r < zeroPct:
 			op.Addrs[i] = -1
@@ -712,7 +764,7 @@ func (w *c22World) drawCreate(t *rapid.T) c22Op {
 		case r < zeroPct+38 && i == 3:
 			op.Addrs[i] = w.appIdx() // the app account as clawback: inner clawback transactions
 		default:
-			op.Addrs[i] = rapid.IntRange(0, w.n-1).Draw(t, "roleAddr")
+			op.Addrs[i] = c22R(t, "roleAddr", 0, w.n-1)
 		}
 	}
 	return op
@@ -849,11 +901,11 @@ func (w *c22World) checkLedger(t *rapid.T, tt *testing.T, l *Ledger, vk *vkCtx, 
 
 func TestVerif_C22_History(t *testing.T) {
 	vk := vkBegin(t, "C22")
-	vk.Rule("histories of 3-9 blocks x 1-5 groups x 1-3 txns over 5-8 funded accounts + one app account (inner axfer) + an unfunded stranger, 1-3 assets " +
+	vk.Rule("histories of 6-14 blocks x 1-8 groups x 1-3 txns over 5-8 funded accounts + one app account (inner axfer) + an unfunded stranger, 1-3 assets " +
 		"(totals 0/1/small/2^63/MaxUint64, default-frozen, empty role addresses); non-trivial = an accepted freeze followed by a value transfer attempt touching a frozen holding, " +
 		"an accepted clawback that moved value, and a destroy attempt; distinct by the full op list")
 	vk.Assume("all accounts that can exist are the genesis accounts, fee sink, rewards pool, the app account and addresses named in generated transactions")
-	vk.Assume("mid-block state is not readable from package ledger; conservation is read back after every block (40% of blocks hold a single group)")
+	vk.Assume("mid-block state is not readable from package ledger; conservation is read back after every block (30% of blocks hold a single group)")
 	gen, gaddrs, _ := ledgertesting.NewTestGenesis()
 	var stranger basics.Address
 	copy(stranger[:], "c22-stranger-account-never-funded")
@@ -863,18 +915,20 @@ func TestVerif_C22_History(t *testing.T) {
 
 	rapid.Check(t, func(t *rapid.T) {
 		cv := protocol.ConsensusCurrentVersion
-		if rapid.IntRange(0, 2).Draw(t, "future") == 0 {
+		if c22R(t, "future", 0, 2) == 0 {
 			cv = protocol.ConsensusFuture
 		}
 		cfg := config.GetDefaultLocal()
-		cfg.DisableLedgerLRUCache = rapid.Bool().Draw(t, "noLRU")
+		// the LRU caches and the verified-txn cache preallocate ~100k entries each, which dominates the cost of a case
+		cfg.DisableLedgerLRUCache = c22R(t, "lru", 0, 7) != 0
+		cfg.VerifiedTranscationsCacheSize = 2000
 		t0 := time.Now()
 		l := newSimpleLedgerWithConsensusVersion(tt, gen, cv, cfg, simpleLedgerLogger(quiet))
 		defer l.Close()
 		proto := config.Consensus[cv]
 
-		n := rapid.IntRange(5, 8).Draw(t, "accounts")
-		w := &c22World{n: n, maxAsset: rapid.IntRange(1, 3).Draw(t, "maxAssets")}
+		n := c22R(t, "accounts", 5, 8)
+		w := &c22World{n: n, maxAsset: c22R(t, "maxAssets", 1, 3)}
 		w.m = &c22Model{assets: []*c22Asset{{ID: 999_999, Phantom: true, H: map[basics.Address]*c22Hold{}}}}
 
 		// setup block: create and fund the app
@@ -903,19 +957,19 @@ func TestVerif_C22_History(t *testing.T) {
 		var rendered []string
 		hist := map[string]bool{}
 		frozeSeen, frozenXferAfterFreeze := false, false
-		nBlocks := rapid.IntRange(4, 10).Draw(t, "blocks")
+		nBlocks := c22R(t, "blocks", 6, 14)
 		abandoned := false
 		first := true
 		for b := 0; b < nBlocks && !abandoned; b++ {
 			eval := nextBlock(tt, l)
 			w.progress = 100 * b / nBlocks
 			nGroups := 1
-			if rapid.IntRange(0, 9).Draw(t, "multiGroup") >= 3 {
-				nGroups = rapid.IntRange(2, 8).Draw(t, "groups")
+			if c22R(t, "multiGroup", 0, 9) >= 3 {
+				nGroups = c22R(t, "groups", 2, 8)
 			}
 			for g := 0; g < nGroups && !abandoned; g++ {
 				gs := 1
-				if r := rapid.IntRange(0, 11).Draw(t, "groupSize"); r >= 11 {
+				if r := c22R(t, "groupSize", 0, 11); r >= 11 {
 					gs = 3
 				} else if r >= 9 {
 					gs = 2
@@ -1014,8 +1068,8 @@ func TestVerif_C22_History(t *testing.T) {
 						abandoned = true
 					}
 				}
+				w.frozeSeen, w.frozenXfer, w.destroyTried = frozeSeen, frozenXferAfterFreeze, hist["destroy-attempt"]
 			}
-			w.frozeSeen, w.frozenXfer, w.destroyTried = frozeSeen, frozenXferAfterFreeze, hist["destroy-attempt"]
 			endBlock(tt, l, eval)
 			l.trackers.waitAccountsWriting()
 			if abandoned {
